@@ -1084,9 +1084,40 @@ def quant_vars(P, R):
             if len(cands) == 1:
                 src = cands[0].value
         if not isinstance(src, ast.Call):
-            R.undecided('R-ARGS', f.qualname,
-                        f'quantified variables `{au.short(qv)}`',
-                        'not the result of a call')
+            # the collecting code may have been expanded in place (a
+            # helper that is not part of the reference tree): look at the
+            # statements of the arm themselves
+            import types
+            arm = p.body if p is not None else f.node.body
+            fake = ast.FunctionDef(
+                name='_expanded', args=f.node.args,
+                body=(lambda k: arm[:k])(next(
+                    (k for k, st in enumerate(arm)
+                     if any(x is c for x in ast.walk(st))), len(arm))) or [
+                    ast.Pass()], decorator_list=[], lineno=c.lineno,
+                col_offset=0)
+            shape = walk_shape(P, types.SimpleNamespace(
+                node=fake, name='_expanded', qualname=f.qualname))
+            n += 1
+            if shape == 'single-path':
+                R.violation(
+                    'R-ARGS', 'variables-of-one-path', f.qualname,
+                    au.short(qv),
+                    f'the quantified variables `{au.short(qv)}` are '
+                    'collected along one path of the first operand (a '
+                    'loop that moves a single cursor to one successor '
+                    'per step): a variable that occurs only off that '
+                    'path is not quantified - right for a cube, wrong '
+                    'for any other first operand', unit=f.unit.rel,
+                    line=c.lineno)
+            elif shape == 'full':
+                R.holds('R-ARGS', f.qualname,
+                        f'`{au.short(c, 50)}`: variables collected by a '
+                        'walk over the whole diagram')
+            else:
+                R.undecided('R-ARGS', f.qualname,
+                            f'quantified variables `{au.short(qv)}`',
+                            'not the result of a call')
             continue
         n += 1
         name = au.call_name(src)
